@@ -12,7 +12,10 @@ import PaneModel.Spec.Documented
 * `bool` is a sub-kind of `int`: admitted wherever an `int` is;
 * `str`/`bytes`/`bytearray` never by a sequence-like target or a dataclass;
 * a mapping never by a sequence-like target, a sequence never by a mapping-like target;
-* `None` only by `NoneType` and the value-compared targets.
+* `None` only by `NoneType` and the value-compared targets;
+* among the objects of the `datetime` module: each class by itself, a `datetime` also by `date` and `time`
+  (`.date()`, `.time()`), a `date` also by `datetime` (`datetime.combine(d, time())`); a `time` never by
+  `date`/`datetime`, a `date` never by `time`.
 -/
 namespace PaneModel
 
@@ -44,7 +47,10 @@ def Admits (target : String) (k : Val.Kind) : Bool :=
   | .list | .tuple | .deque => seqTargets.contains target || target == "dataclass"
   | .dict | .mapOf => mapTargets.contains target || target == "dataclass"
   | .opaque ty =>
-    target == ty || (target == "Fraction" && ty == "Decimal") || (target == "Path" && ty.startsWith "Path:")
+    target == ty || (target == "Fraction" && ty == "Decimal") || (target == "Path" && ty.startsWith "Path:") ||
+    -- the date/time conversions: a `datetime` is a `date` (subclass) and has a time of day; a `date` is the
+    -- `datetime` at midnight.  Never `time → date/datetime`, never `date → time`.
+    ((target == "date" || target == "time") && ty == "datetime") || (target == "datetime" && ty == "date")
   | .set | .frozenset | .enumMem | .sub | .obj | .wrap => false
 
 /-- kind-level reading of `isinstance(val, allowed)` -/
@@ -66,7 +72,9 @@ def ACls.admitsKind : ACls → Val.Kind → Bool
 def Conv.admitsKind : Conv → Val.Kind → Bool
   | .scalar _ allowed _ _ _, k => allowed.any (·.admitsKind k)
   | .noneC, k => k == .none
-  | .datetime ty, k => k == .str || k == .opaque ty
+  | .datetime ty, k =>
+    k == .str || (Val.isDtName ty && k == .opaque ty) ||
+    ((ty == "date" || ty == "time") && k == .opaque "datetime") || (ty == "datetime" && k == .opaque "date")
   | _, _ => true
 
 /-- the kinds the table is checked on, cell by cell -/
